@@ -5,12 +5,14 @@
 //!                                 (u16 numbering arithmetic: current + count, current + 1, number += 1)
 //!   logfiles <u|none> <c|none>    ant_logging::LogBuilder with `--max-log-files <u>` / `--max-archived-log-files <c>` (usize, also
 //!                                 stored in the registry) and a directory destination: `initialize()` -> ok | err | panic
+//!   logdestrt <stderr|stdout|p:<s>>  LogOutputDest: `parse_from_str(d.to_string())` compared with d -> same | differs | err
 //!   killfaucet <pid|null|nofaucet>  `ant_node_manager::local::kill_network` on a registry FILE (no nodes) holding a faucet entry
 //!                                 with that `pid` field (`antctl local kill`); pids are above the kernel's pid_max, so
 //!                                 no process is ever found -> ok | err | panic
-//!   upgrade0 <b>                  `ant_node_manager::cmd::node::upgrade` with a custom binary printing the version text <b>, on
+//!   upgrade0 <b> <tp>             `ant_node_manager::cmd::node::upgrade` with a custom binary printing the version text <b>, on
 //!                                 this machine's node registry — run only while that registry holds no services (the case
-//!                                 in question; otherwise `skipped`) -> ok | err | panic
+//!                                 in question; otherwise tp = `skipped`); tp = v1 | v0: get_bin_version + semver::Version::parse
+//!                                 called directly -> ok | err | panic
 use ant_bootstrap::PeersArgs;
 use ant_node_manager::add_services::add_node;
 use ant_node_manager::add_services::config::AddNodeServiceOptions;
@@ -87,7 +89,7 @@ fn quiet<T>(f: impl FnOnce() -> T) -> T {
     }
 }
 
-pub fn exec(ws: &[&str], tmp: &Path, _op: &mut String) -> Option<String> {
+pub fn exec(ws: &[&str], tmp: &Path, op: &mut String) -> Option<String> {
     Some(match ws {
         ["addnum", max, count] => {
             let max: Option<u16> = if *max == "-" { None } else { let Ok(m) = max.parse::<u16>() else { return Some("bad-op".into()) }; Some(m) };
@@ -175,6 +177,26 @@ pub fn exec(ws: &[&str], tmp: &Path, _op: &mut String) -> Option<String> {
                 Err(_) => "err".into(),
             }
         }
+        ["logdestrt", d] => {
+            use ant_logging::LogOutputDest;
+            let dest = match *d {
+                "stderr" => LogOutputDest::Stderr,
+                "stdout" => LogOutputDest::Stdout,
+                p => {
+                    let Some(Ok(p)) = p.strip_prefix("p:").and_then(unhex).map(String::from_utf8) else { return Some("bad-op".into()) };
+                    LogOutputDest::Path(std::path::PathBuf::from(p))
+                }
+            };
+            let same = |a: &LogOutputDest, b: &LogOutputDest| match (a, b) {
+                (LogOutputDest::Stderr, LogOutputDest::Stderr) | (LogOutputDest::Stdout, LogOutputDest::Stdout) => true,
+                (LogOutputDest::Path(x), LogOutputDest::Path(y)) => x == y,
+                _ => false,
+            };
+            match LogOutputDest::parse_from_str(&dest.to_string()) {
+                Ok(back) => if same(&dest, &back) { "same".into() } else { "differs".into() },
+                Err(_) => "err".into(),
+            }
+        }
         ["killfaucet", pid] => {
             let faucet = match *pid {
                 "nofaucet" => "null".to_string(),
@@ -201,9 +223,10 @@ pub fn exec(ws: &[&str], tmp: &Path, _op: &mut String) -> Option<String> {
                 Err(_) => "err".into(),
             }
         }
-        ["upgrade0", b] => {
+        ["upgrade0", b, ..] => {
             let Some(bytes) = unhex(b) else { return Some("bad-op".into()) };
             // the machine's registry (a fixed system path when running as root): only the zero-services case is driven
+            *op = format!("upgrade0 {b} skipped");
             let Ok(path) = ant_node_manager::config::get_node_registry_path() else { return Some("skipped".into()) };
             match NodeRegistry::load(&path) {
                 Ok(r) if r.nodes.is_empty() => {}
@@ -214,6 +237,9 @@ pub fn exec(ws: &[&str], tmp: &Path, _op: &mut String) -> Option<String> {
             std::fs::write(&data, &bytes).expect("write version output");
             std::fs::write(&script, format!("#!/bin/sh\nexec cat \"{}\"\n", data.display())).expect("write script");
             std::fs::set_permissions(&script, std::fs::Permissions::from_mode(0o755)).expect("chmod");
+            // third-party verdict: the version text the program prints, as a semantic version
+            let v_ok = ant_node_manager::helpers::get_bin_version(&script).ok().map(|v| semver::Version::parse(&v).is_ok()).unwrap_or(false);
+            *op = format!("upgrade0 {b} {}", if v_ok { "v1" } else { "v0" });
             let rt = tokio::runtime::Builder::new_current_thread().enable_all().build().expect("runtime");
             let r = quiet(|| {
                 rt.block_on(ant_node_manager::cmd::node::upgrade(
@@ -240,6 +266,14 @@ pub fn exec(ws: &[&str], tmp: &Path, _op: &mut String) -> Option<String> {
 }
 
 pub fn oracle(ws: &[&str], res: &str, line: &str, out: &mut Out) {
+    if let ["logdestrt", d] = ws {
+        // the round trip holds wherever `log_dest_roundtrip_partial` says it does: Stdout, and every path that is not one of
+        // the parser's keywords (Stderr and the paths `stdout` / `data-dir` are the declared exception)
+        let keyword = ["p:7374646f7574", "p:646174612d646972", "stderr"].contains(d);
+        if !keyword && res != "same" {
+            out.oracle_fail("roundtrip", line, &format!("LogOutputDest::parse_from_str(d.to_string()) = {res}"));
+        }
+    }
     if let ["addnum", max, count] = ws {
         // numbers handed out are max+1 ..= max+count, all within u16 — stated with wide integers
         let m: u64 = max.parse().unwrap_or(0);
@@ -279,12 +313,15 @@ pub fn generate(rng: &mut Rng, n: u64) -> Vec<String> {
     v.push("logfiles none none".into());
     v.push("logfiles 0 0".into());
     v.push("logfiles 5 3".into());
+    for d in ["stderr", "stdout", "p:7374646f7574", "p:646174612d646972", "p:737464657272", "p:2f7661722f6c6f67", "p:-", "p:c3a9"] {
+        v.push(format!("logdestrt {d}"));
+    }
     v.push("killfaucet null".into());
     v.push("killfaucet nofaucet".into());
     v.push("killfaucet 4194999".into());
     v.push(format!("killfaucet {}", u32::MAX));
-    v.push(format!("upgrade0 {}", hex(b"antnode 0.112.6\n")));
-    v.push(format!("upgrade0 {}", hex(b"garbage")));
+    v.push(format!("upgrade0 {} x", hex(b"antnode 0.112.6\n")));
+    v.push(format!("upgrade0 {} x", hex(b"garbage")));
     for _ in 0..(n / 100).clamp(10, 60) {
         match rng.below(3) {
             0 => {
